@@ -368,11 +368,11 @@ def c15(ctx):
     return done(ctx)
 
 
-def _fn_check(ctx, names, stream):
+def _fn_check(ctx, names, stream, extra=()):
     from . import oracle
     rng = random.Random(ctx.seed)
     fm = tiers(ctx, gen.TRANS_FMTS_Q, gen.TRANS_FMTS_T)
-    lines = corpus_lines(ctx.pid, {"fn"}) + gen.fn_lines(rng, names, fm, tiers(ctx, 6, 40))
+    lines = corpus_lines(ctx.pid, {"fn"}) + list(extra) + gen.fn_lines(rng, names, fm, tiers(ctx, 6, 40))
     impl, _ = ctx.stream(stream, lines, nontrivial=lambda t: t == "n", chunk_timeout=1800, per_line_timeout=tiers(ctx, 20, 120))
     for ln, im in zip(lines, impl):
         _, name, st, tok = ln.split()
@@ -385,7 +385,10 @@ def _fn_check(ctx, names, stream):
 # --------------------------------------------------------------------------- C16
 def c16(ctx):
     start(ctx)
-    _fn_check(ctx, ["exp", "log", "sigmoid"], "exp-log-sigmoid")
+    rng = random.Random(ctx.seed + 1)
+    fm = tiers(ctx, gen.TRANS_FMTS_Q, gen.TRANS_FMTS_T)
+    extra = gen.exp_threshold_lines(rng, fm) + gen.log_near_one_lines(rng, fm, tiers(ctx, 12, 60))
+    _fn_check(ctx, ["exp", "log", "sigmoid"], "exp-log-sigmoid", extra)
     ctx.assumptions.append("accuracy clause: searched with mpmath at 4x precision (no theorem); special-operand clauses: theorems")
     return done(ctx)
 
@@ -394,14 +397,16 @@ def c16(ctx):
 def c17(ctx):
     from . import oracle
     start(ctx)
-    lines, impl = _fn_check(ctx, ["sin", "cos", "tan"], "sin-cos-tan")
+    rng2 = random.Random(ctx.seed + 2)
+    extra = gen.trig_multiple_lines(rng2, tiers(ctx, [(5, 11), (8, 24), (11, 53)], [(5, 11), (8, 8), (8, 24), (11, 53), (15, 113), (10, 120)]))
+    lines, impl = _fn_check(ctx, ["sin", "cos", "tan"], "sin-cos-tan", extra)
     # exact symmetry: f(-x) against f(x)
     sym = []
     for ln in lines:
         _, name, st, tok = ln.split()
         if tok.startswith("N0") and st.split(",")[2] in ("E", "A"):
             sym.append("fn %s %s N1%s" % (name, st, tok[2:]))
-    sym = sym[: tiers(ctx, 1500, 20000)]
+    sym = sym[: tiers(ctx, 6000, 60000)]
     pos = {ln: im for ln, im in zip(lines, impl)}
     si, _ = ctx.stream("symmetry", sym, nontrivial=lambda t: True, chunk_timeout=1800, per_line_timeout=tiers(ctx, 20, 120))
     for ln, im in zip(sym, si):
@@ -417,11 +422,20 @@ def c17(ctx):
         vals = gen.all_values(s)
         ex = ["fn %s %s %s" % (nm, s, a) for nm in ("sin", "cos", "tan") for a in vals]
         ei, _ = ctx.stream("fp16-exhaustive", ex, exhaustive=True, nontrivial=lambda t: t == "n", chunk_timeout=3600, per_line_timeout=60)
+        res = {}
         for ln, im in zip(ex, ei):
             _, name, st, tok = ln.split()
+            res[(name, tok)] = im
             why = oracle.check_fn(name, s, tok, im)
             if why:
                 ctx.fail("oracle", "fp16-exhaustive", ln, im, "-", why)
+        for (name, tok), im in res.items():   # exact symmetry over every FP16 value
+            if tok.startswith("N0"):
+                other = res.get((name, "N1" + tok[2:]))
+                if other and im not in ("PANIC", "ABORT", "HANG") and other not in ("PANIC", "ABORT", "HANG"):
+                    why = oracle.check_symmetry(name, im, other)
+                    if why:
+                        ctx.fail("oracle", "fp16-exhaustive", "fn %s %s N1%s" % (name, s, tok[2:]), other, im, why)
     ctx.assumptions.append("accuracy clause: searched with mpmath at 4x precision (no theorem); specials and exact symmetry: theorems")
     return done(ctx)
 
